@@ -56,14 +56,12 @@ theorem decode_encode (k : Bytes) (r : Nat) (hr : r < 2 ^ 64) : decode (encode k
   have hlen := encode_length k r
   have hm := magic_length
   unfold decode
-  have h1 : ¬ (encode k r).length < magic.length := by omega
+  have h1 : ¬ (encode k r).length < minKeyLength := by unfold minKeyLength; omega
   have h2 : (encode k r).take magic.length = magic := by simp [encode]
-  have h3 : ¬ (encode k r).length < 9 := by omega
   have h4 : (encode k r).getD ((encode k r).length - 9) 0 = splitByte := by
     have : (encode k r).length - 9 = magic.length + k.length := by omega
     rw [this]
     simp [encode, List.getD_eq_getElem?_getD, List.getElem?_append_right]
-  have h5 : ¬ (encode k r).length - 9 < magic.length := by omega
   have h6 : ((encode k r).drop magic.length).take ((encode k r).length - 9 - magic.length) = k := by
     have : (encode k r).length - 9 - magic.length = k.length := by omega
     rw [this]; simp [encode]
@@ -76,7 +74,52 @@ theorem decode_encode (k : Bytes) (r : Nat) (hr : r < 2 ^ 64) : decode (encode k
     rw [e, List.drop_append]
     simp
   rw [List.getD_eq_getElem?_getD] at h4
-  simp [h1, h2, h3, h4, h5, h6, h7, fromBE_be64 hr]
+  simp [h1, h2, h4, h6, h7, fromBE_be64 hr]
+
+/-- `Decode` is total since /repo 5ace897: no input makes it index out of range. -/
+theorem decode_never_panics (ik : Bytes) : decode ik ≠ .panic := by
+  unfold decode
+  repeat' split
+  all_goals simp
+
+/-- ... every key is classified: decoded, or reported as not an internal key. -/
+theorem decode_total (ik : Bytes) : decode ik = .err ∨ ∃ k r, decode ik = .ok k r := by
+  cases h : decode ik with
+  | ok k r => exact .inr ⟨k, r, rfl⟩
+  | err => exact .inl rfl
+  | panic => exact absurd h (decode_never_panics ik)
+
+/-- a key too short to hold magic, split byte and revision is reported -/
+theorem decode_short {ik : Bytes} (h : ik.length < 13) : decode ik = .err := by
+  have : ik.length < minKeyLength := by unfold minKeyLength; rw [magic_length]; omega
+  simp [decode, this]
+
+/-- what decodes is at least 13 bytes long -/
+theorem decode_ok_length {ik k : Bytes} {r : Nat} (h : decode ik = .ok k r) : 13 ≤ ik.length := by
+  by_cases hl : ik.length < 13
+  · rw [decode_short hl] at h; cases h
+  · omega
+
+/-- On every key the repaired `Decode` answers what the old one answered — wherever the old one answered. -/
+theorem decode_eq_old {ik : Bytes} (h : decodeOld ik ≠ .panic) : decode ik = decodeOld ik := by
+  have hm := magic_length
+  unfold decodeOld at h
+  unfold decode decodeOld minKeyLength
+  by_cases h1 : ik.length < magic.length
+  · simp [h1] at h
+  · by_cases h2 : (ik.take magic.length != magic) = true
+    · simp only [h1, h2, if_true, if_false]
+      split <;> rfl
+    · by_cases h3 : ik.length < 9
+      · simp [h1, h2, h3] at h
+      · by_cases h4 : (ik.getD (ik.length - 9) 0 != splitByte) = true
+        · simp only [h1, h2, h3, h4, if_true, if_false]
+          split <;> rfl
+        · by_cases h5 : ik.length - 9 < magic.length
+          · simp only [h1, h2, h3, h4, h5, if_true, if_false] at h
+            exact absurd rfl h
+          · have h6 : ¬ ik.length < magic.length + 1 + 8 := by omega
+            simp only [h1, h2, h3, h4, h5, h6, if_false]
 
 theorem encode_inj {k1 k2 : Bytes} {r1 r2 : Nat} (hr1 : r1 < 2 ^ 64) (hr2 : r2 < 2 ^ 64)
     (h : encode k1 r1 = encode k2 r2) : k1 = k2 ∧ r1 = r2 := by
@@ -182,27 +225,86 @@ theorem prefixEndAux_all255 {p : Bytes} (h : ∀ b ∈ p, b = 255) : prefixEndAu
     have hx := h x (by simp)
     simp [prefixEndAux, ih (fun b hb => h b (by simp [hb])), hx]
 
-/-! ### range bounds (`encodeBound` = `backend.encodeRangeBound`, /repo 146f0bb) -/
+/-! ### range bounds (`encodeBound` = `backend.encodeRangeBound`, /repo 23c8b93: a raw bound is cut at its FIRST
+byte at or below the key/revision separator) -/
 
-/-- Byte 0 is not in the alphabet: a bound over the alphabet is encoded as before (the index key). -/
+/-- The byte at or below which `encodeRangeBound` cuts a bound (a constant local to the Go function, regenerated)
+is the coder's split byte, and the function has the shape the model mirrors (regenerated shape fact). -/
+theorem rangeBoundSeparator_eq : rangeBoundSeparator = splitByte := by decide
+
+theorem cutLow_none_iff {b : Bytes} : cutLow b = none ↔ Alphabet b := by
+  induction b with
+  | nil => simp [cutLow, Alphabet]
+  | cons x xs ih =>
+    have hA : Alphabet (x :: xs) ↔ (splitByte < x ∧ Alphabet xs) := by
+      simp [Alphabet]
+    rw [hA, ← ih]
+    simp only [cutLow, rangeBoundSeparator_eq]
+    by_cases h : x ≤ splitByte
+    · have : ¬ splitByte < x := by omega
+      simp [h, this]
+    · have : splitByte < x := by omega
+      simp [h, this]
+
+/-- What the loop finds: the bound is `P ++ c :: rest` with `P` over the alphabet and `c` at or below the
+separator (`P = raw[:i]`, `c = raw[i]` for the first such `i`). -/
+theorem cutLow_some {b P : Bytes} (h : cutLow b = some P) :
+    Alphabet P ∧ ∃ c rest, b = P ++ c :: rest ∧ c ≤ splitByte := by
+  induction b generalizing P with
+  | nil => simp [cutLow] at h
+  | cons x xs ih =>
+    simp only [cutLow, rangeBoundSeparator_eq] at h
+    by_cases hx : x ≤ splitByte
+    · simp only [hx, if_true, Option.some.injEq] at h
+      subst h
+      exact ⟨by simp [Alphabet], x, xs, rfl, hx⟩
+    · simp only [hx, if_false] at h
+      cases hc : cutLow xs with
+      | none => rw [hc] at h; simp at h
+      | some Q =>
+        rw [hc] at h
+        simp only [Option.map_some, Option.some.injEq] at h
+        subst h
+        obtain ⟨hQ, c, rest, e, hcle⟩ := ih hc
+        refine ⟨?_, c, rest, by rw [e]; rfl, hcle⟩
+        intro y hy
+        simp only [List.mem_cons] at hy
+        rcases hy with rfl | hy
+        · omega
+        · exact hQ y hy
+
+theorem cutLow_append {P : Bytes} (hP : Alphabet P) {c : Nat} (hc : c ≤ splitByte) (rest : Bytes) :
+    cutLow (P ++ c :: rest) = some P := by
+  induction P with
+  | nil => simp [cutLow, rangeBoundSeparator_eq, hc]
+  | cons x xs ih =>
+    have hx : ¬ x ≤ splitByte := by have := hP x (by simp); omega
+    have := ih (fun y hy => hP y (by simp [hy]))
+    simp [cutLow, rangeBoundSeparator_eq, hx, this]
+
+/-- A bound over the alphabet has no byte to cut at: it is encoded as before (the index key). -/
 theorem encodeBound_of_alphabet {b : Bytes} (hb : Alphabet b) : encodeBound b = encode b 0 := by
-  unfold encodeBound
-  have : ¬ b.getLast? = some 0 := by
-    intro h
-    have hm : (0 : Nat) ∈ b := List.mem_of_getLast? h
-    have := hb 0 hm
-    omega
-  simp [this]
+  simp [encodeBound, cutLow_none_iff.mpr hb]
+
+/-- A bound with a byte at or below the separator is encoded just after every version of what stands in front
+of the first such byte. -/
+theorem encodeBound_cut {P : Bytes} (hP : Alphabet P) {c : Nat} (hc : c ≤ splitByte) (rest : Bytes) :
+    encodeBound (P ++ c :: rest) = encode P (2 ^ 64 - 1) ++ [0] := by
+  simp [encodeBound, cutLow_append hP hc rest]
 
 /-- The bound "just after K". -/
-theorem encodeBound_succ (K : Bytes) : encodeBound (K ++ [0]) = encode K (2 ^ 64 - 1) ++ [0] := by
-  simp [encodeBound]
+theorem encodeBound_succ {K : Bytes} (hK : Alphabet K) : encodeBound (K ++ [0]) = encode K (2 ^ 64 - 1) ++ [0] :=
+  encodeBound_cut hK (by decide) []
 
-/-- A range bound as an etcd client sends it: a key over the alphabet, or the immediate successor
-`K ++ [0]` of one (continue key of a paginated list, end of a single-key range). -/
-inductive RangeBound : Bytes → Prop where
-  | key {b : Bytes} : Alphabet b → RangeBound b
-  | succ {K : Bytes} : Alphabet K → RangeBound (K ++ [0])
+/-- Every bound is a key over the alphabet, or has a first low byte with a key over the alphabet in front. -/
+theorem bound_cases (b : Bytes) :
+    (Alphabet b ∧ encodeBound b = encode b 0) ∨
+    (∃ P c rest, Alphabet P ∧ c ≤ splitByte ∧ b = P ++ c :: rest ∧ encodeBound b = encode P (2 ^ 64 - 1) ++ [0]) := by
+  cases h : cutLow b with
+  | none => exact .inl ⟨cutLow_none_iff.mp h, encodeBound_of_alphabet (cutLow_none_iff.mp h)⟩
+  | some P =>
+    obtain ⟨hP, c, rest, e, hc⟩ := cutLow_some h
+    exact .inr ⟨P, c, rest, hP, hc, e, by rw [e]; exact encodeBound_cut hP hc rest⟩
 
 /-- `K ++ [0]` is the immediate successor of `K` in `bytes.Compare` order (all byte strings):
 `k < K ++ [0]` iff `k ≤ K`. -/
@@ -246,6 +348,31 @@ theorem ble_succ_iff (k K : Bytes) : ble (K ++ [0]) k = true ↔ blt K k = true 
     rw [this] at h'
     exact h'
 
+/-- AMONG KEYS OVER THE ALPHABET every bound `P ++ c :: rest` with a low byte `c` is "just after `P`": a key `k`
+over the alphabet is below it iff `k ≤ P` (whatever `c ≤ separator` and `rest` are). -/
+theorem cmp_cut_lt_iff {k : Bytes} (hk : Alphabet k) (P : Bytes) {c : Nat} (hc : c ≤ splitByte) (rest : Bytes) :
+    cmp k (P ++ c :: rest) = .lt ↔ cmp k P ≠ .gt := by
+  induction P generalizing k with
+  | nil =>
+    cases k with
+    | nil => simp
+    | cons x xs =>
+      have hx : splitByte < x := hk x (by simp)
+      have h1 : ¬ x < c := by omega
+      have h2 : c < x := by omega
+      simp [cmp_cons_cons, h1, h2]
+  | cons y ys ih =>
+    cases k with
+    | nil => simp
+    | cons x xs =>
+      simp only [List.cons_append, cmp_cons_cons]
+      by_cases h1 : x < y
+      · simp [h1]
+      · by_cases h2 : y < x
+        · simp [h1, h2]
+        · simp only [h1, h2, if_false]
+          exact ih (fun b hb => hk b (by simp [hb]))
+
 /-- equal length, not greater, and a non-empty tail on the right: smaller -/
 theorem cmp_append_right_lt {a b t : Bytes} (hl : a.length = b.length) (h : cmp a b ≠ .gt) (ht : t ≠ []) :
     cmp a (b ++ t) = .lt := by
@@ -268,11 +395,10 @@ theorem cmp_append_right_lt {a b t : Bytes} (hl : a.length = b.length) (h : cmp 
         · simp only [h1, h2, if_false] at h ⊢
           exact ih (by simpa using hl) h
 
-/-- The heart of the repaired bound: against the bound "just after K" a record of `k` compares like `k`
-against `K`, a record of `K` itself (whatever its revision) sorting BEFORE the bound. -/
-theorem encode_cmp_succ {k K : Bytes} {r : Nat} (hk : Alphabet k) (hK : Alphabet K) (hr : r < 2 ^ 64) :
-    cmp (encode k r) (encodeBound (K ++ [0])) = if cmp k K = .gt then .gt else .lt := by
-  rw [encodeBound_succ]
+/-- The heart of the repaired bound: against "just after every version of K" a record of `k` compares like `k`
+against `K`, a record of `K` itself (whatever its revision) sorting BEFORE it. -/
+theorem encode_cmp_after {k K : Bytes} {r : Nat} (hk : Alphabet k) (hK : Alphabet K) (hr : r < 2 ^ 64) :
+    cmp (encode k r) (encode K (2 ^ 64 - 1) ++ [0]) = if cmp k K = .gt then .gt else .lt := by
   have e : encode K (2 ^ 64 - 1) ++ [0] = magic ++ (K ++ splitByte :: (be64 (2 ^ 64 - 1) ++ [0])) := by
     simp [encode]
   rw [e]
@@ -288,39 +414,202 @@ theorem encode_cmp_succ {k K : Bytes} {r : Nat} (hk : Alphabet k) (hK : Alphabet
     simp only [h, if_false]
     cases hc : cmp k K <;> simp_all
 
-/-- Encoded bounds are ordered like the raw bounds. -/
-theorem encodeBound_lt {a b : Bytes} (ha : RangeBound a) (hb : RangeBound b) (hab : cmp a b = .lt) :
+theorem encode_cmp_succ {k K : Bytes} {r : Nat} (hk : Alphabet k) (hK : Alphabet K) (hr : r < 2 ^ 64) :
+    cmp (encode k r) (encodeBound (K ++ [0])) = if cmp k K = .gt then .gt else .lt := by
+  rw [encodeBound_succ hK]; exact encode_cmp_after hk hK hr
+
+/-- THE BOUND LEMMA: against ANY raw bound `b` (arbitrary bytes) a record of a key `k` over the alphabet sorts
+below the encoded bound iff the raw key is below the raw bound. -/
+theorem encode_lt_bound_iff {k : Bytes} {r : Nat} (hk : Alphabet k) (hr : r < 2 ^ 64) (b : Bytes) :
+    cmp (encode k r) (encodeBound b) = .lt ↔ cmp k b = .lt := by
+  rcases bound_cases b with ⟨hb, e⟩ | ⟨P, c, rest, hP, hc, rfl, e⟩
+  · rw [e, encode_cmp hk hb hr (by decide)]
+    by_cases h : k = b
+    · subst h
+      simp [Nat.compare_eq_lt]
+    · simp [h]
+  · rw [e, encode_cmp_after hk hP hr, cmp_cut_lt_iff hk P hc rest]
+    cases cmp k P <;> simp
+
+/-! #### the order of encoded bounds -/
+
+/-- the key a bound is encoded around: the bound itself, or what stands in front of its first low byte -/
+def boundKey (b : Bytes) : Bytes := (cutLow b).getD b
+
+theorem boundKey_alphabet (b : Bytes) : Alphabet (boundKey b) := by
+  unfold boundKey
+  cases h : cutLow b with
+  | none => exact cutLow_none_iff.mp h
+  | some P => exact (cutLow_some h).1
+
+theorem cmp_prefix_ne_gt (P t : Bytes) : cmp P (P ++ t) ≠ .gt := by
+  have := cmp_append_left P [] t
+  rw [List.append_nil] at this
+  rw [this]
+  cases t <;> simp
+
+/-- the key of a bound is at or below the bound (a prefix of it) -/
+theorem boundKey_le (b : Bytes) : cmp (boundKey b) b ≠ .gt := by
+  unfold boundKey
+  cases h : cutLow b with
+  | none => simp
+  | some P =>
+    obtain ⟨_, c, rest, e, _⟩ := cutLow_some h
+    simp only [Option.getD_some]
+    rw [e]
+    exact cmp_prefix_ne_gt P _
+
+/-- a key over the alphabet is below a bound iff it is below (bound over the alphabet) or at or below (bound with
+a low byte) the key of the bound -/
+theorem lt_bound_iff {k : Bytes} (hk : Alphabet k) (b : Bytes) :
+    cmp k b = .lt ↔ (if (cutLow b).isSome then cmp k (boundKey b) ≠ .gt else cmp k (boundKey b) = .lt) := by
+  unfold boundKey
+  cases h : cutLow b with
+  | none => simp
+  | some P =>
+    obtain ⟨_, c, rest, e, hc⟩ := cutLow_some h
+    simp only [Option.isSome_some, if_true, Option.getD_some]
+    rw [e]
+    exact cmp_cut_lt_iff hk P hc rest
+
+/-- How two encoded bounds compare: by their keys; with the same key, "the index key" sorts before "just after
+every version". -/
+theorem encodeBound_cmp (a b : Bytes) :
+    cmp (encodeBound a) (encodeBound b) =
+      if boundKey a = boundKey b then
+        (match (cutLow a).isSome, (cutLow b).isSome with
+          | false, true => .lt
+          | true, false => .gt
+          | _, _ => .eq)
+      else cmp (boundKey a) (boundKey b) := by
+  have hA := boundKey_alphabet a
+  have hB := boundKey_alphabet b
+  have e0 : ∀ X : Bytes, encode X 0 = magic ++ (X ++ splitByte :: be64 0) := fun X => rfl
+  have e1 : ∀ X : Bytes, encode X (2 ^ 64 - 1) ++ [0] = magic ++ (X ++ splitByte :: (be64 (2 ^ 64 - 1) ++ [0])) := by
+    intro X; simp [encode]
+  have hlt : cmp (be64 0) (be64 (2 ^ 64 - 1) ++ [0]) = .lt :=
+    cmp_append_right_lt (by simp [be64]) (by rw [cmp_be64 (by decide) (by decide)]; decide) (by simp)
+  have hgt : cmp (be64 (2 ^ 64 - 1) ++ [0]) (be64 0) = .gt := cmp_gt_iff.mpr hlt
+  unfold boundKey at *
+  unfold encodeBound
+  cases ha : cutLow a with
+  | none =>
+    cases hb : cutLow b with
+    | none =>
+      rw [ha] at hA; rw [hb] at hB
+      simp only [Option.getD_none] at hA hB ⊢
+      rw [e0, e0, cmp_append_left, cmp_split splitByte a b _ _ hA hB]
+      simp
+    | some Q =>
+      rw [ha] at hA; rw [hb] at hB
+      simp only [Option.getD_none, Option.getD_some] at hA hB ⊢
+      rw [e0, e1, cmp_append_left, cmp_split splitByte a Q _ _ hA hB, hlt]
+      simp
+  | some P =>
+    cases hb : cutLow b with
+    | none =>
+      rw [ha] at hA; rw [hb] at hB
+      simp only [Option.getD_none, Option.getD_some] at hA hB ⊢
+      rw [e1, e0, cmp_append_left, cmp_split splitByte P b _ _ hA hB, hgt]
+      simp
+    | some Q =>
+      rw [ha] at hA; rw [hb] at hB
+      simp only [Option.getD_some] at hA hB ⊢
+      rw [e1, e1, cmp_append_left, cmp_split splitByte P Q _ _ hA hB]
+      simp
+
+/-- raw bounds in order have their keys in order -/
+theorem boundKey_mono {a b : Bytes} (hab : cmp a b = .lt) : cmp (boundKey a) (boundKey b) ≠ .gt := by
+  intro hgt
+  -- the key of `a` (over the alphabet) is not below `b` ...
+  have h1 : ¬ cmp (boundKey a) b = .lt := by
+    rw [lt_bound_iff (boundKey_alphabet a) b]
+    split
+    · simp [hgt]
+    · simp [hgt]
+  -- ... although it is at or below `a`, which is below `b`
+  have h2 : ble (boundKey a) a = true := ble_iff.mpr (boundKey_le a)
+  have := blt_of_ble_of_blt h2 (blt_iff.mpr hab)
+  exact h1 (blt_iff.mp this)
+
+/-- ENCODED BOUNDS ARE ORDERED LIKE THE RAW BOUNDS, weakly: `a < b` gives `encodeBound a ≤ encodeBound b` for
+ARBITRARY byte strings; they are EQUAL exactly when both have a low byte behind the same key (`P ++ [1]` and
+`P ++ [2]`: no key over the alphabet lies between them, `encodeBound_eq_no_key_between`). -/
+theorem encodeBound_lt_or_eq {a b : Bytes} (hab : cmp a b = .lt) :
+    cmp (encodeBound a) (encodeBound b) = .lt ∨
+      (encodeBound a = encodeBound b ∧ ∃ P, cutLow a = some P ∧ cutLow b = some P) := by
+  have hm := boundKey_mono hab
+  rw [encodeBound_cmp]
+  by_cases hK : boundKey a = boundKey b
+  · simp only [hK, if_true]
+    cases ha : cutLow a with
+    | none =>
+      cases hb : cutLow b with
+      | none =>
+        -- both over the alphabet with the same key: a = b
+        exfalso
+        simp only [boundKey, ha, hb, Option.getD_none] at hK
+        rw [hK] at hab; simp at hab
+      | some Q => exact .inl rfl
+    | some P =>
+      cases hb : cutLow b with
+      | none =>
+        -- b is the key of a: a is above b
+        exfalso
+        simp only [boundKey, ha, hb, Option.getD_none, Option.getD_some] at hK
+        have h1 := boundKey_le a
+        simp only [boundKey, ha, Option.getD_some] at h1
+        rw [hK] at h1
+        rw [cmp_swap b a] at hab
+        cases hc : cmp b a <;> simp_all
+      | some Q =>
+        simp only [boundKey, ha, hb, Option.getD_some] at hK
+        subst hK
+        refine .inr ⟨?_, P, rfl, rfl⟩
+        simp [encodeBound, ha, hb]
+  · simp only [hK, if_false]
+    have hne : cmp (boundKey a) (boundKey b) ≠ .eq := fun h => hK (cmp_eq_iff.mp h)
+    cases hc : cmp (boundKey a) (boundKey b) <;> simp_all
+
+theorem encodeBound_mono {a b : Bytes} (hab : cmp a b = .lt) : cmp (encodeBound a) (encodeBound b) ≠ .gt := by
+  rcases encodeBound_lt_or_eq hab with h | ⟨h, _⟩
+  · simp [h]
+  · simp [h]
+
+/-- strictly ordered as soon as one of the two bounds is over the alphabet (what 146f0bb-era statements had) -/
+theorem encodeBound_lt {a b : Bytes} (h : Alphabet a ∨ Alphabet b) (hab : cmp a b = .lt) :
     cmp (encodeBound a) (encodeBound b) = .lt := by
-  cases ha with
-  | key ha =>
-    cases hb with
-    | key hb =>
-      have hne : a ≠ b := by intro e; rw [e] at hab; simp at hab
-      rw [encodeBound_of_alphabet ha, encodeBound_of_alphabet hb, encode_cmp ha hb (by decide) (by decide)]
-      simp [hne, hab]
-    | succ hK =>
-      rw [encodeBound_of_alphabet ha, encode_cmp_succ ha hK (by decide)]
-      have := (cmp_succ_lt_iff a _).mp hab
-      simp [this]
-  | succ hK =>
-    rename_i K
-    cases hb with
-    | key hb =>
-      rw [encodeBound_of_alphabet hb, cmp_swap (encode b 0), encode_cmp_succ hb hK (by decide)]
-      have h1 : blt K b = true := (ble_succ_iff b K).mp (by rw [ble_iff, hab]; decide)
-      rw [blt_iff, ← cmp_gt_iff] at h1
-      simp [h1]
-    | succ hK' =>
-      rename_i K'
-      -- K ++ [0] < K' ++ [0] means K < K'
-      have hlt : cmp K K' = .lt := by
-        have h1 : ble (K ++ [0]) K' = true := (blt_succ_iff _ _).mp (blt_iff.mpr hab)
-        exact blt_iff.mp ((ble_succ_iff _ _).mp h1)
-      have hne : K ≠ K' := by intro e; rw [e] at hlt; simp at hlt
-      rw [encodeBound_succ, encodeBound_succ]
-      have e1 : ∀ X : Bytes, encode X (2 ^ 64 - 1) ++ [0] = magic ++ (X ++ splitByte :: (be64 (2 ^ 64 - 1) ++ [0])) := by
-        intro X; simp [encode]
-      rw [e1 K, e1 K', cmp_append_left, cmp_split splitByte K K' _ _ hK hK']
-      simp [hne, hlt]
+  rcases encodeBound_lt_or_eq hab with h' | ⟨_, P, ha, hb⟩
+  · exact h'
+  · rcases h with h | h
+    · rw [cutLow_none_iff.mpr h] at ha; cases ha
+    · rw [cutLow_none_iff.mpr h] at hb; cases hb
+
+/-- two bounds are encoded alike iff they are equal or both have a low byte behind the same key -/
+theorem encodeBound_eq_iff (a b : Bytes) :
+    encodeBound a = encodeBound b ↔ (a = b ∨ ∃ P, cutLow a = some P ∧ cutLow b = some P) := by
+  constructor
+  · intro h
+    have hc := encodeBound_cmp a b
+    rw [h, cmp_refl] at hc
+    by_cases hK : boundKey a = boundKey b
+    · simp only [hK, if_true] at hc
+      cases ha : cutLow a with
+      | none =>
+        cases hb : cutLow b with
+        | none => left; simpa [boundKey, ha, hb] using hK
+        | some Q => simp [ha, hb] at hc
+      | some P =>
+        cases hb : cutLow b with
+        | none => simp [ha, hb] at hc
+        | some Q =>
+          right
+          simp only [boundKey, ha, hb, Option.getD_some] at hK
+          exact ⟨P, rfl, by rw [hK]⟩
+    · simp only [hK, if_false] at hc
+      exact absurd (cmp_eq_iff.mp hc.symm) hK
+  · rintro (rfl | ⟨P, ha, hb⟩)
+    · rfl
+    · simp [encodeBound, ha, hb]
 
 end KB
